@@ -107,9 +107,18 @@ def _run_variant(args) -> dict:
     if ov is None:
         res["status"] = "stale"
         return res
+    want = v.get("rule") if isinstance(v.get("rule"), (list, tuple)) else [v.get("rule")]
     try:
         repo = Repo(root, overrides=ov)
-        ck = run_check(prop, "quick", repo=repo, write=False, quiet=True)
+        # breaking variants are first run without the (slow) shared rule RS; it is added when the cheap run stays silent
+        # or when RS is the rule the variant expects.  Benign variants always get the full check.
+        cheap = v["kind"] == "break" and "RS" not in want
+        ck = run_check(prop, "quick", repo=repo, write=False, quiet=True, hygiene=not cheap)
+        if cheap:
+            fired = {o.rule.split(".")[-1] for o in ck.obligations if not o.ok and o.key() not in base_fail}
+            if not (any(w in fired for w in want) or ("*" in want and fired)):
+                q._cfg_cache.clear()
+                ck = run_check(prop, "quick", repo=repo, write=False, quiet=True, hygiene=True)
     except AnalysisError as e:
         res["errors"] = [str(e)]
         ck = None
